@@ -136,6 +136,9 @@ type vfVsPeer struct {
 
 func vfRunVsPeer(underTestIsClient bool, ucfg, pcfg *Config, peer func(pc *Conn) error, uact func(c *Conn, hsErr error) error) *vfVsPeer {
 	sim := vfNewDSim(nil, 0)
+	if vfPeerClientAddr != "" {
+		sim.ends[0].addr = vfDAddr(vfPeerClientAddr)
+	}
 	uc, pcf := ucfg.Clone(), pcfg.Clone()
 	uc.NewTimer, pcf.NewTimer = sim.newTimer, sim.newTimer
 	var u, pc *Conn
